@@ -4,7 +4,7 @@
 From Coq Require Import List ZArith Bool String.
 Import ListNotations.
 Require Import Nib.C08.Model Nib.C08.Spec.
-Open Scope Z_scope.
+Local Open Scope Z_scope.
 
 Record case := {
   c_reached : bool;        (* the wrapper got as far as the precompile (no depth / balance / write-protection rejection) *)
@@ -37,11 +37,12 @@ Definition model_result (F : facts) (c : case) : result Z :=
 
 (** gas the body must at least / exactly have used when the call succeeded *)
 Definition body_gas_ok (F : facts) (c : case) : bool :=
-  match o_class c, selected (pc_of F (c_pc c)) (c_inp c), required_gas F (pc_of F (c_pc c)) (c_inp c) with
-  | Ok, Some mf, GGas rq =>
+  match o_class c, selected (pc_of F (c_pc c)) (c_inp c), required_gas F (pc_of F (c_pc c)) (c_inp c), i_unpack (c_inp c) with
+  | Ok, Some mf, GGas rq, Some args =>
       let g1 := c_gas c - rq in
-      if stateless (mf_id mf) then o_left c =? g1 else o_left c <=? g1 - 1000
-  | _, _, _ => true
+      (* every store access costs at least ReadCostFlat = 1000 *)
+      if stateless (mf_id mf) args then o_left c =? g1 else o_left c <=? g1 - 1000
+  | _, _, _, _ => true
   end.
 
 Definition mismatch (F : facts) (c : case) : bool :=
